@@ -136,11 +136,31 @@ class _RecordRunOrLoad:
         return r
 
 
-def run_once_serial(cfg, *, max_workers=None):
+def _prelude(spec, ctx):
+    """Start from a non-initial state: an earlier, unrelated run_tasks call in the same
+    process (other Lab, other storage, other epoch) that is aborted by a failure with
+    continue_on_failure=False, so whatever the runner holds at that moment is left behind.
+    Nothing of it may leak into the measured run."""
+    built = Built(spec)
+    storage = MemStorage()
+    try:
+        U.WORLD.reset(epoch=7, faults=[spec.labels[spec.n - 1]])
+        lab = labtech.Lab(storage=storage, runner_backend='serial', continue_on_failure=False, notebook=False, context=ctx)
+        try:
+            lab.run_tasks(list(built.canon), disable_progress=True, disable_top=True)
+        except BaseException:  # noqa
+            pass
+    finally:
+        storage.release()
+
+
+def run_once_serial(cfg, *, max_workers=None, prelude=False):
     """Run one E2 configuration on the real SerialRunner under the spy."""
     from .e2 import Obs
     spec = cfg.spec
     ctx = dict(cfg.context) if cfg.context is not None else None
+    if prelude:
+        _prelude(spec, ctx)
     built = Built(spec)
     storage = MemStorage()
     orig = lt_serial.run_or_load_task
